@@ -425,4 +425,864 @@ theorem specAscii {prog : Prog} {inp : Input} (hw : wfProg prog = true) (hk : in
     have : ¬ inp.bytes.size - mn < 1 := by unfold Input.len at hmx; omega
     simp [this]
 
+/-! ## UTF-8 input: facts at char boundaries -/
+
+open Regress.Utf8 in
+/-- `inp` is the UTF-8 haystack holding the scalar values `cs`. -/
+structure Utf8Text (inp : Input) (cs : List Nat) : Prop where
+  kind : inp.kind = .utf8
+  bytes : inp.bytes = text cs
+  scalar : AllScalar cs
+
+/-- Storable position of a UTF-8 haystack: in range and a char boundary. -/
+def VUtf8 (inp : Input) (p : Nat) : Prop := p ≤ inp.len ∧ Utf8.isBoundary inp.bytes p = true
+
+instance (inp : Input) (p : Nat) : Decidable (VUtf8 inp p) := by unfold VUtf8; infer_instance
+
+section Utf8
+open Regress.Utf8
+variable {inp : Input} {cs : List Nat}
+
+theorem vutf8_iff (h : Utf8Text inp cs) {p : Nat} :
+    VUtf8 inp p ↔ ∃ k, k ≤ cs.length ∧ p = off cs k := by
+  unfold VUtf8 Input.len
+  rw [h.bytes]
+  constructor
+  · rintro ⟨h1, h2⟩; exact (isBoundary_iff cs h1).mp h2
+  · rintro ⟨k, hk, rfl⟩; exact ⟨off_le_size _ _, isBoundary_off cs hk⟩
+
+theorem next_utf8 (h : Utf8Text inp cs) (fwd : Bool) {p : Nat} (hv : VUtf8 inp p) :
+    ∃ r, Cursor.next inp fwd p = .ok r ∧
+      ∀ c p', r = some (c, p') → VUtf8 inp p' ∧ Moved fwd p p' := by
+  obtain ⟨h1, h2⟩ := hv
+  unfold VUtf8
+  unfold Input.len at h1 ⊢
+  rw [h.bytes] at h1 h2 ⊢
+  obtain ⟨⟨r, hr, _, hq⟩, _, ⟨r', hr', _, hq'⟩, _⟩ := decoders_safe h.scalar h1 h2
+  cases fwd with
+  | true =>
+    refine ⟨r, by simp only [Cursor.next, if_true, Input.nextRight, h.kind, h.bytes]; exact hr, ?_⟩
+    intro c p' hcp
+    obtain ⟨_, a, _, b, c'⟩ := hq c p' hcp
+    exact ⟨⟨b, c'⟩, Moved.fwd a⟩
+  | false =>
+    have e : Cursor.next inp false p = nextLeft (text cs) p := by
+      simp only [Cursor.next, Bool.false_eq_true, if_false, Input.nextLeft, h.kind, h.bytes]
+    refine ⟨r', e ▸ hr', ?_⟩
+    intro c p' hcp
+    obtain ⟨_, a, _, c'⟩ := hq' c p' hcp
+    exact ⟨⟨by omega, c'⟩, Moved.bwd a⟩
+
+theorem peek_utf8 (h : Utf8Text inp cs) {p : Nat} (hv : VUtf8 inp p) :
+    (∃ r, inp.peekLeft p = .ok r) ∧ (∃ r, inp.peekRight p = .ok r) := by
+  obtain ⟨r1, h1, _⟩ := next_utf8 h false hv
+  obtain ⟨r2, h2, _⟩ := next_utf8 h true hv
+  simp only [Cursor.next, Bool.false_eq_true, if_false, if_true] at h1 h2
+  constructor
+  · unfold Input.peekLeft; rw [h1]; cases r1 with
+    | none => exact ⟨_, rfl⟩
+    | some cp => exact ⟨_, rfl⟩
+  · unfold Input.peekRight; rw [h2]; cases r2 with
+    | none => exact ⟨_, rfl⟩
+    | some cp => exact ⟨_, rfl⟩
+
+/-- `cursor::next_byte` from a boundary: fine if the byte read is ASCII. -/
+theorem nextByte_utf8 (h : Utf8Text inp cs) (fwd : Bool) {p : Nat} (hv : VUtf8 inp p) :
+    ∃ r, Cursor.nextByte inp fwd p = .ok r ∧
+      ∀ b p', r = some (b, p') → b < 128 → VUtf8 inp p' ∧ Moved fwd p p' := by
+  obtain ⟨r, hr, hp⟩ := nextByte_ok inp fwd hv.1
+  refine ⟨r, hr, ?_⟩
+  intro b p' hbp hb
+  obtain ⟨hm, hle, hf, hbk⟩ := hp b p' hbp
+  refine ⟨⟨hle, ?_⟩, hm⟩
+  obtain ⟨h1, h2⟩ := hv
+  unfold Input.len at h1
+  rw [h.bytes] at h1 h2 hf hbk ⊢
+  obtain ⟨⟨r1, hr1, _, hq1⟩, _, ⟨r2, hr2, _, hq2⟩, _⟩ := decoders_safe h.scalar h1 h2
+  cases fwd with
+  | true =>
+    obtain ⟨rfl, hb0⟩ := hf rfl
+    have hlt := lt_of_getElem?_eq_some hb0
+    have hne : (p == (text cs).size) = false := beq_eq_false_iff_ne.mpr (Nat.ne_of_lt hlt)
+    have : nextRight (text cs) p = .ok (some (b, p + 1)) := by
+      unfold nextRight
+      simp only [hne, Bool.false_eq_true, if_false, hb0, hb, if_true]
+    rw [this] at hr1
+    cases hr1
+    exact (hq1 b (p + 1) rfl).2.2.2.2
+  | false =>
+    obtain ⟨hpp, hb0⟩ := hbk rfl
+    have : p - 1 = p' := by omega
+    have hne : (p == 0) = false := beq_eq_false_iff_ne.mpr (by omega)
+    have : nextLeft (text cs) p = .ok (some (b, p')) := by
+      unfold nextLeft
+      simp only [hne, Bool.false_eq_true, if_false, this, hb0, hb, if_true]
+    rw [this] at hr2
+    cases hr2
+    exact (hq2 b p' rfl).2.2.2
+
+/-- The bytes between two boundaries are the encoding of a list of scalars. -/
+theorem slice_boundaries (h : Utf8Text inp cs) {rs re : Nat} (h1 : VUtf8 inp rs) (h2 : VUtf8 inp re)
+    (hle : rs ≤ re) : ∃ ds, AllScalar ds ∧ Utf8.slice (text cs) rs re = encodeAll ds := by
+  obtain ⟨i, hi, rfl⟩ := (vutf8_iff h).mp h1
+  obtain ⟨j, hj, rfl⟩ := (vutf8_iff h).mp h2
+  have hij : i ≤ j := by
+    by_cases hij : i ≤ j
+    · exact hij
+    · have := off_strict_mono (cs := cs) (k := j) (j := i) (by omega) hi; omega
+  refine ⟨(cs.drop i).take (j - i), (h.scalar.drop i).take (j - i), ?_⟩
+  have hpre : (cs.drop i).take (j - i) <+: cs.drop i := List.take_prefix _ _
+  have hlen : ((cs.drop i).take (j - i)).length = j - i := by simp; omega
+  have hoff := off_add_of_prefix hpre
+  rw [hlen, show i + (j - i) = j by omega] at hoff
+  have hsplit : encodeAll (cs.drop i) =
+      encodeAll ((cs.drop i).take (j - i)) ++ encodeAll ((cs.drop i).drop (j - i)) := by
+    rw [← encodeAll_append, List.take_append_drop]
+  rw [slice_eq]
+  simp only [text]
+  rw [drop_off, hoff, Nat.add_sub_cancel_left, hsplit, List.take_left']
+  rfl
+
+theorem matchBytes_utf8 (h : Utf8Text inp cs) (fwd : Bool) {pos p : Nat} {ds : List Nat}
+    (hds : AllScalar ds) (hv : VUtf8 inp pos)
+    (hm : inp.matchBytes fwd pos (encodeAll ds) = some p) : VUtf8 inp p := by
+  obtain ⟨h1, h2⟩ := hv
+  unfold VUtf8
+  unfold Input.len at h1 ⊢
+  unfold Input.matchBytes at hm
+  rw [h.bytes] at h1 h2 hm ⊢
+  cases fwd with
+  | true =>
+    obtain ⟨a, b, _⟩ := matchBytes_boundary h.scalar hds h1 h2 hm
+    exact ⟨a, b⟩
+  | false =>
+    obtain ⟨a, b, _⟩ := matchBytes_boundary_back h2 hm
+    exact ⟨by omega, b⟩
+
+theorem backref_utf8 (h : Utf8Text inp cs) (fwd : Bool) {rs re pos p : Nat} (h1 : VUtf8 inp rs)
+    (h2 : VUtf8 inp re) (hv : VUtf8 inp pos) (hm : backref inp fwd rs re pos = some p) :
+    VUtf8 inp p ∧ MovedLe fwd pos p := by
+  have hmv : MovedLe fwd pos p := by
+    unfold backref Input.subrangeEq at hm
+    split at hm
+    · cases hm
+    · exact (matchBytes_moved (bytes := inp.bytes) hv.1 hm).1
+  refine ⟨?_, hmv⟩
+  unfold backref Input.subrangeEq at hm
+  split at hm
+  · cases hm
+  · obtain ⟨ds, hds, hsl⟩ := slice_boundaries h h1 h2 (by omega)
+    unfold Utf8.subrangeEq at hm
+    rw [h.bytes, hsl, ← h.bytes] at hm
+    exact matchBytes_utf8 h fwd hds hv hm
+
+theorem backrefIcase_utf8 (h : Utf8Text inp cs) (fwd : Bool) {rs re pos : Nat} (h1 : VUtf8 inp rs)
+    (h2 : VUtf8 inp re) (hle : rs ≤ re) (hv : VUtf8 inp pos) :
+    ∃ r, backrefIcase inp fwd rs re pos = .ok r ∧ ∀ p, r = some p → VUtf8 inp p ∧ MovedLe fwd pos p := by
+  unfold backrefIcase
+  have hc : ¬ (decide (rs > re) || decide (re > inp.bytes.size)) = true := by
+    have := h2.1; unfold Input.len at this; simp; omega
+  simp only [hc, if_false]
+  obtain ⟨ds, hds, hsl⟩ := slice_boundaries h h1 h2 hle
+  have hext : inp.bytes.extract rs re = text ds := by
+    have : (inp.bytes.extract rs re).toList = encodeAll ds := by rw [h.bytes]; exact hsl
+    unfold text; rw [← this]
+  have href : Utf8Text ⟨inp.kind, inp.bytes.extract rs re, inp.unicode⟩ ds := ⟨h.kind, hext, hds⟩
+  apply backrefIcaseLoop_ok (VUtf8 ⟨inp.kind, inp.bytes.extract rs re, inp.unicode⟩) (VUtf8 inp)
+  · intro p hp
+    obtain ⟨r, hr, hq⟩ := next_utf8 href fwd hp
+    exact ⟨r, hr, fun c p' hh => ⟨(hq c p' hh).1, (hq c p' hh).2, (hq c p' hh).1.1⟩⟩
+  · intro p hp; exact next_utf8 h fwd hp
+  · refine (vutf8_iff href).mpr ?_
+    cases fwd with
+    | true => exact ⟨0, Nat.zero_le _, by simp⟩
+    | false => exact ⟨ds.length, Nat.le_refl _, by simp [off_length, hext]⟩
+  · exact hv
+  · intro f; subst f; simp [Input.len]
+  · intro f; subst f; simp
+
+theorem stepL_utf8 (h : Utf8Text inp cs) {mn mx : Nat} (h1 : VUtf8 inp mn) (h2 : VUtf8 inp mx)
+    (hlt : mn < mx) : ∃ p, inp.nextLeftPos mx = .ok (some p) ∧ mn ≤ p ∧ p < mx ∧ VUtf8 inp p := by
+  obtain ⟨i, hi, rfl⟩ := (vutf8_iff h).mp h1
+  obtain ⟨j, hj, rfl⟩ := (vutf8_iff h).mp h2
+  have hij : i < j := (off_lt_iff hi hj).mp hlt
+  refine ⟨off cs (j - 1), ?_, off_mono (by omega) (by omega), ?_, (vutf8_iff h).mpr ⟨j - 1, by omega, rfl⟩⟩
+  · simp only [Input.nextLeftPos, h.kind, h.bytes]
+    exact nextLeftPos_roundtrip h.scalar (by omega) hj
+  · have := off_lt_succ (cs := cs) (k := j - 1) (by omega)
+    rwa [show j - 1 + 1 = j by omega] at this
+
+theorem stepR_utf8 (h : Utf8Text inp cs) {mn mx : Nat} (h1 : VUtf8 inp mn) (h2 : VUtf8 inp mx)
+    (hlt : mn < mx) : ∃ p, inp.nextRightPos mn = .ok (some p) ∧ mn < p ∧ p ≤ mx ∧ VUtf8 inp p := by
+  obtain ⟨i, hi, rfl⟩ := (vutf8_iff h).mp h1
+  obtain ⟨j, hj, rfl⟩ := (vutf8_iff h).mp h2
+  have hij : i < j := (off_lt_iff hi hj).mp hlt
+  refine ⟨off cs (i + 1), ?_, off_lt_succ (by omega), off_mono (by omega) hj,
+    (vutf8_iff h).mpr ⟨i + 1, by omega, rfl⟩⟩
+  simp only [Input.nextRightPos, h.kind, h.bytes]
+  exact nextRightPos_roundtrip h.scalar (by omega)
+
+end Utf8
+
+/-! ## Stage 2: UTF-8 input, every `byteSeq` chunk a whole number of characters -/
+
+/-- The code point of a 1..4 byte sequence (no validation). -/
+def decodeCp : List Nat → Nat
+  | [a] => a
+  | [a, b] => Utf8.w2 a b
+  | [a, b, c] => Utf8.w3 a b c
+  | [a, b, c, d] => Utf8.w4 a b c d
+  | _ => 0
+
+/-- Decode the first UTF-8 sequence of `bs` (validated by re-encoding). -/
+def decodeOne (bs : List Nat) : Option (Nat × List Nat) :=
+  match bs with
+  | [] => none
+  | b0 :: _ =>
+    let n := Utf8.seqLen b0
+    let c := decodeCp (bs.take n)
+    if Utf8.isScalar c && Utf8.encode c == bs.take n then some (c, bs.drop n) else none
+
+/-- `some ds` iff `bs` is the UTF-8 encoding of the scalar values `ds` (`fuel ≥ bs.length`). -/
+def decodeAllUtf8? : Nat → List Nat → Option (List Nat)
+  | _, [] => some []
+  | 0, _ :: _ => none
+  | fuel + 1, b :: bs =>
+    match decodeOne (b :: bs) with
+    | none => none
+    | some (c, rest) => (decodeAllUtf8? fuel rest).map (c :: ·)
+
+/-- `bs` is the UTF-8 encoding of a list of scalar values. -/
+def isUtf8Chunk (bs : List Nat) : Bool := (decodeAllUtf8? bs.length bs).isSome
+
+/-- Every `byteSeq` instruction is by itself the encoding of a list of scalar values. -/
+def noSplitChunks (prog : Prog) : Bool :=
+  prog.insns.all (fun i => match i with | .byteSeq bs => isUtf8Chunk bs | _ => true)
+
+theorem decodeOne_sound {bs : List Nat} {c : Nat} {rest : List Nat} (h : decodeOne bs = some (c, rest)) :
+    Utf8.isScalar c = true ∧ Utf8.encode c ++ rest = bs := by
+  unfold decodeOne at h
+  cases bs with
+  | nil => cases h
+  | cons b0 tl =>
+    simp only at h
+    split at h
+    · rename_i hc
+      simp only [Bool.and_eq_true, beq_iff_eq] at hc
+      cases h
+      exact ⟨hc.1, by rw [hc.2, List.take_append_drop]⟩
+    · cases h
+
+theorem decodeAllUtf8?_sound : ∀ (fuel : Nat) (bs ds : List Nat), decodeAllUtf8? fuel bs = some ds →
+    Utf8.AllScalar ds ∧ Utf8.encodeAll ds = bs := by
+  intro fuel
+  induction fuel with
+  | zero =>
+    intro bs ds h
+    cases bs with
+    | nil => simp only [decodeAllUtf8?] at h; cases h; exact ⟨fun c hc => (by cases hc), rfl⟩
+    | cons b bs => simp [decodeAllUtf8?] at h
+  | succ fuel ih =>
+    intro bs ds h
+    cases bs with
+    | nil => simp only [decodeAllUtf8?] at h; cases h; exact ⟨fun c hc => (by cases hc), rfl⟩
+    | cons b bs =>
+      simp only [decodeAllUtf8?] at h
+      split at h
+      · cases h
+      · rename_i c rest hone
+        obtain ⟨hc, henc⟩ := decodeOne_sound hone
+        cases hr : decodeAllUtf8? fuel rest with
+        | none => rw [hr] at h; cases h
+        | some ds' =>
+          rw [hr] at h
+          cases h
+          obtain ⟨h1, h2⟩ := ih rest ds' hr
+          refine ⟨?_, by rw [Utf8.encodeAll_cons, h2, henc]⟩
+          intro x hx
+          rcases List.mem_cons.mp hx with rfl | hx
+          · exact hc
+          · exact h1 x hx
+
+theorem noSplitChunks_spec {prog : Prog} (h : noSplitChunks prog = true) {ip : Nat} {bs : List Nat}
+    (hi : prog.insns[ip]? = some (.byteSeq bs)) : ∃ ds, Utf8.AllScalar ds ∧ bs = Utf8.encodeAll ds := by
+  have hlt := lt_of_getElem?_eq_some hi
+  simp only [noSplitChunks, Array.all_eq_true] at h
+  have := h ip hlt
+  rw [Array.getElem?_eq_getElem hlt] at hi
+  have heq : prog.insns[ip] = .byteSeq bs := by simpa using hi
+  rw [heq] at this
+  simp only [isUtf8Chunk, Option.isSome_iff_exists] at this
+  obtain ⟨ds, hds⟩ := this
+  obtain ⟨h1, h2⟩ := decodeAllUtf8?_sound _ _ _ hds
+  exact ⟨ds, h1, h2.symm⟩
+
+/-- Admissibility for Stage 2: any instruction, at a char boundary. -/
+def Utf8A (prog : Prog) (inp : Input) (_fwd : Bool) (ip pos : Nat) : Prop :=
+  ip < prog.insns.size ∧ VUtf8 inp pos
+
+theorem mem_lt_of_all {bs : List Nat} {n b : Nat} (h : bs.all (· < n) = true) (hb : b ∈ bs) : b < n := by
+  simp only [List.all_eq_true, decide_eq_true_eq] at h
+  exact h b hb
+
+theorem specUtf8Plain {prog : Prog} {inp : Input} {cs : List Nat} (hw : wfProg prog = true)
+    (hns : noSplitChunks prog = true) (h : Utf8Text inp cs) :
+    Spec prog inp (Utf8A prog inp) (VUtf8 inp) where
+  ip_lt h := h.1
+  v_le h := h.1
+  adm_v h _ _ := h.2
+  ctrl h hi t ht := ⟨ctrlSuccs_lt hw hi t ht, h.2⟩
+  elem := by
+    intro fwd ip pos insn ha hi he
+    obtain ⟨r, hr, hp⟩ := next_utf8 h fwd ha.2
+    refine ⟨r, hr, fun c p hcp => ⟨⟨wf_succ hw hi ?_ ?_, (hp c p hcp).1⟩, (hp c p hcp).2⟩⟩ <;>
+      (intro hh; subst hh; simp [isElem] at he)
+  byte := by
+    intro fwd ip pos bs ha hi
+    obtain ⟨r, hr, hp⟩ := nextByte_utf8 h fwd ha.2
+    refine ⟨r, hr, fun b p hbp hmem => ?_⟩
+    have hb : b < 128 := by
+      rcases hi with hi | hi
+      · have := wf_insn hw hi
+        simp only [wfInsn, Bool.and_eq_true] at this
+        exact mem_lt_of_all this.2 hmem
+      · have := wf_insn hw hi
+        simp only [wfInsn] at this
+        exact mem_lt_of_all this hmem
+    have hsucc : ip + 1 < prog.insns.size := by
+      rcases hi with hi | hi <;> exact wf_succ hw hi (by simp) (by simp)
+    exact ⟨⟨hsucc, (hp b p hbp hb).1⟩, (hp b p hbp hb).2⟩
+  seq := by
+    intro fwd ip pos bs p ha hi hm
+    have hwi := wf_insn hw hi
+    simp only [wfInsn, Bool.and_eq_true, decide_eq_true_eq] at hwi
+    obtain ⟨ds, hds, rfl⟩ := noSplitChunks_spec hns hi
+    exact ⟨⟨wf_succ hw hi (by simp) (by simp), matchBytes_utf8 h fwd hds ha.2 hm⟩,
+      (matchBytes_moved (bytes := inp.bytes) ha.2.1 hm).2 (by omega)⟩
+  peek hv := peek_utf8 h hv
+  backref := by
+    intro fwd ip pos g ic rs re p ha hi h1 h2 hm
+    have := backref_utf8 h fwd h1 h2 ha.2 hm
+    exact ⟨⟨wf_succ hw hi (by simp) (by simp), this.1⟩, this.2⟩
+  backrefI := by
+    intro fwd ip pos g ic rs re ha hi h1 h2 hle
+    obtain ⟨r, hr, hp⟩ := backrefIcase_utf8 h fwd h1 h2 hle ha.2
+    exact ⟨r, hr, fun p hp' => ⟨⟨wf_succ hw hi (by simp) (by simp), (hp p hp').1⟩, (hp p hp').2⟩⟩
+  look := by
+    intro fwd ip pos neg sg eg k ha
+    exact ⟨fun hi => ⟨wf_succ hw hi (by simp) (by simp), ha.2⟩,
+      fun hi => ⟨wf_succ hw hi (by simp) (by simp), ha.2⟩⟩
+  loop1 := by
+    intro fwd ip pos mn mx g ha hi p
+    have hwi := wf_insn hw hi
+    simp only [wfInsn, Bool.and_eq_true, decide_eq_true_eq] at hwi
+    have := hwi.1.2
+    exact ⟨⟨fun h => h.2, fun h => ⟨by omega, h⟩⟩, fun hv => ⟨⟨by omega, hv⟩, ⟨by omega, hv⟩⟩⟩
+  stepL h1 h2 hlt := stepL_utf8 h h1 h2 hlt
+  stepR h1 h2 hlt := stepR_utf8 h h1 h2 hlt
+
+/-! ## Stage 3: `byteSeq` chunks that split a character — phases
+
+The *phase* of a position of a well-formed text is its distance to the next char boundary
+(`0` on a boundary, otherwise `1..3`). Matching a byte that is really in the text changes the phase in
+a way that depends only on the class of the byte (ASCII / lead byte of length `n` / continuation),
+both left-to-right (`fwdStep`) and right-to-left (`bwdStep`). -/
+
+/-- Phase after reading byte `b` left to right at phase `k`; `none`: such a byte cannot occur here in
+well-formed UTF-8 (the match then fails). -/
+def fwdStep (k b : Nat) : Option Nat :=
+  if k = 0 then
+    (if b < 0x80 then some 0 else if Utf8.isCont b then none else some (Utf8.seqLen b - 1))
+  else (if Utf8.isCont b then some (k - 1) else none)
+
+/-- Phase after reading byte `b` right to left (the byte just before the position) at phase `k`. -/
+def bwdStep (k b : Nat) : Option Nat :=
+  if Utf8.isCont b then some (k + 1)
+  else if b < 0x80 then (if k = 0 then some 0 else none)
+  else (if Utf8.seqLen b = k + 1 then some 0 else none)
+
+def transWith (step : Nat → Nat → Option Nat) : Nat → List Nat → Option Nat
+  | k, [] => some k
+  | k, b :: bs =>
+    match step k b with
+    | none => none
+    | some k' => transWith step k' bs
+
+/-- Phase after matching the chunk `bs` forwards from phase `k`. -/
+def transF (k : Nat) (bs : List Nat) : Option Nat := transWith fwdStep k bs
+/-- Phase after matching the chunk `bs` backwards (its last byte first) from phase `k`. -/
+def transB (k : Nat) (bs : List Nat) : Option Nat := transWith bwdStep k bs.reverse
+
+section Phase
+open Regress.Utf8
+
+/-- `pos` is `k` bytes before the next char boundary of `text cs`. -/
+def Ph (cs : List Nat) (pos k : Nat) : Prop :=
+  (k = 0 ∧ ∃ i, i ≤ cs.length ∧ pos = off cs i) ∨
+  (0 < k ∧ ∃ i, ∃ hi : i < cs.length, ∃ j, 0 < j ∧ j + k = (encode cs[i]).length ∧ pos = off cs i + j)
+
+theorem Ph.le_size {cs : List Nat} {pos k : Nat} (h : Ph cs pos k) : pos + k ≤ (text cs).size := by
+  rcases h with ⟨rfl, i, hi, rfl⟩ | ⟨_, i, hi, j, _, hj, rfl⟩
+  · exact off_le_size _ _
+  · have := off_succ hi
+    have := off_le_size cs (i + 1)
+    omega
+
+theorem head_facts {c : Nat} (hc : c ≤ 0x10FFFF) :
+    ∃ b, (encode c)[0]? = some b ∧ isCont b = false ∧ seqLen b = (encode c).length ∧
+      (b < 0x80 ↔ (encode c).length = 1) := by
+  refine ⟨firstByte c, ?_, ?_, seqLen_firstByte c, ?_⟩
+  · have := firstByte_eq_head hc
+    rw [List.head?_eq_getElem?] at this; exact this
+  · cases h : isCont (firstByte c) with
+    | false => rfl
+    | true =>
+      have := isSeqStart_of_isCont h
+      rw [isSeqStart_firstByte] at this; cases this
+  · rw [encode_length]
+    unfold firstByte
+    split
+    · simp; omega
+    · split
+      · simp <;> omega
+      · split <;> simp <;> omega
+
+theorem byteAt {cs : List Nat} {i : Nat} (hi : i < cs.length) {j : Nat}
+    (hj : j < (encode cs[i]).length) : (text cs)[off cs i + j]? = (encode cs[i])[j]? :=
+  hasAt_text hi j hj
+
+theorem isCont_not_ascii {b : Nat} (h : isCont b = true) : ¬ b < 0x80 := by
+  simp [isCont] at h; omega
+
+theorem fwdStep_ok {cs : List Nat} (hcs : AllScalar cs) {pos k b : Nat} (hph : Ph cs pos k)
+    (hb : (text cs)[pos]? = some b) : ∃ k', fwdStep k b = some k' ∧ Ph cs (pos + 1) k' := by
+  have hlt := lt_of_getElem?_eq_some hb
+  rcases hph with ⟨rfl, i, hi, rfl⟩ | ⟨hk, i, hi, j, hj0, hjk, rfl⟩
+  · -- on a boundary: `b` is the first byte of the `i`-th scalar
+    have hi' : i < cs.length := by
+      by_cases h : i < cs.length
+      · exact h
+      · have : i = cs.length := by omega
+        subst this; rw [off_length] at hlt; omega
+    obtain ⟨b0, h0, hnc, hsl, hasc⟩ := head_facts (isScalar_le (hcs _ (List.getElem_mem hi')))
+    have := byteAt hi' (j := 0) (encode_length_pos _)
+    rw [Nat.add_zero, hb, h0] at this
+    cases this
+    unfold fwdStep
+    simp only [if_true]
+    by_cases hl : (encode cs[i]).length = 1
+    · have hb' : b < 0x80 := hasc.mpr hl
+      simp only [hb', if_true]
+      exact ⟨0, rfl, Or.inl ⟨rfl, i + 1, hi', by rw [off_succ hi', hl]⟩⟩
+    · have hb' : ¬ b < 0x80 := fun h => hl (hasc.mp h)
+      simp only [hb', if_false, hnc, Bool.false_eq_true]
+      have hpos := encode_length_pos cs[i]
+      refine ⟨_, rfl, Or.inr ⟨by omega, i, hi', 1, by omega, by omega, rfl⟩⟩
+  · -- inside the `i`-th scalar: `b` is a continuation byte
+    have hjl : j < (encode cs[i]).length := by omega
+    have := byteAt hi hjl
+    rw [hb] at this
+    have hc := isCont_of_pos_index hj0 this.symm
+    unfold fwdStep
+    have hk0 : ¬ k = 0 := by omega
+    simp only [hk0, if_false, hc, if_true]
+    refine ⟨_, rfl, ?_⟩
+    by_cases hk1 : k = 1
+    · exact Or.inl ⟨by omega, i + 1, hi, by rw [off_succ hi]; omega⟩
+    · exact Or.inr ⟨by omega, i, hi, j + 1, by omega, by omega, by omega⟩
+
+theorem bwdStep_ok {cs : List Nat} (hcs : AllScalar cs) {pos k b : Nat} (hph : Ph cs pos k)
+    (hp : 0 < pos) (hb : (text cs)[pos - 1]? = some b) :
+    ∃ k', bwdStep k b = some k' ∧ Ph cs (pos - 1) k' := by
+  rcases hph with ⟨rfl, i, hi, rfl⟩ | ⟨hk, i, hi, j, hj0, hjk, rfl⟩
+  · -- on a boundary: `b` is the last byte of the previous scalar
+    have hi0 : 0 < i := by
+      by_cases h : 0 < i
+      · exact h
+      · have : i = 0 := by omega
+        subst this; simp at hp
+    have hi' : i - 1 < cs.length := by omega
+    have hoff := off_succ hi'
+    rw [show i - 1 + 1 = i by omega] at hoff
+    have hpos := encode_length_pos cs[i - 1]
+    have hbyte := byteAt hi' (j := (encode cs[i - 1]).length - 1) (by omega)
+    rw [show off cs (i - 1) + ((encode cs[i - 1]).length - 1) = off cs i - 1 by omega, hb] at hbyte
+    obtain ⟨b0, h0, hnc, hsl, hasc⟩ := head_facts (isScalar_le (hcs _ (List.getElem_mem hi')))
+    unfold bwdStep
+    by_cases hl : (encode cs[i - 1]).length = 1
+    · rw [hl, Nat.sub_self, h0] at hbyte
+      cases hbyte
+      have hb' : b < 0x80 := hasc.mpr hl
+      simp only [hnc, Bool.false_eq_true, if_false, hb', if_true]
+      exact ⟨0, rfl, Or.inl ⟨rfl, i - 1, by omega, by omega⟩⟩
+    · have hc := isCont_of_pos_index (i := (encode cs[i - 1]).length - 1) (by omega) hbyte.symm
+      simp only [hc, if_true]
+      exact ⟨_, rfl, Or.inr ⟨by omega, i - 1, hi', (encode cs[i - 1]).length - 1, by omega, by omega,
+        by omega⟩⟩
+  · -- inside the `i`-th scalar
+    have hjl : j - 1 < (encode cs[i]).length := by omega
+    have hbyte := byteAt hi hjl
+    rw [show off cs i + (j - 1) = off cs i + j - 1 by omega, hb] at hbyte
+    unfold bwdStep
+    by_cases hj1 : j = 1
+    · subst hj1
+      obtain ⟨b0, h0, hnc, hsl, hasc⟩ := head_facts (isScalar_le (hcs _ (List.getElem_mem hi)))
+      rw [Nat.sub_self, h0] at hbyte
+      cases hbyte
+      have hb' : ¬ b < 0x80 := fun h => by have := hasc.mp h; omega
+      have hs : seqLen b = k + 1 := by omega
+      simp only [hnc, Bool.false_eq_true, if_false, hb', hs, if_true]
+      exact ⟨0, rfl, Or.inl ⟨rfl, i, by omega, by omega⟩⟩
+    · have hc := isCont_of_pos_index (i := j - 1) (by omega) hbyte.symm
+      simp only [hc, if_true]
+      exact ⟨_, rfl, Or.inr ⟨by omega, i, hi, j - 1, by omega, by omega, by omega⟩⟩
+
+theorem transF_ok {cs : List Nat} (hcs : AllScalar cs) :
+    ∀ (bs : List Nat) (pos k : Nat), Ph cs pos k →
+      (∀ t, t < bs.length → (text cs)[pos + t]? = bs[t]?) →
+      ∃ k', transF k bs = some k' ∧ Ph cs (pos + bs.length) k' := by
+  intro bs
+  induction bs with
+  | nil => intro pos k h _; exact ⟨k, rfl, h⟩
+  | cons b bs ih =>
+    intro pos k h hb
+    have h0 := hb 0 (by simp)
+    simp only [Nat.add_zero, List.getElem?_cons_zero] at h0
+    obtain ⟨k1, hk1, hph1⟩ := fwdStep_ok hcs h h0
+    obtain ⟨k', hk', hph'⟩ := ih (pos + 1) k1 hph1 (by
+      intro t ht
+      have := hb (t + 1) (by simp; omega)
+      simp only [List.getElem?_cons_succ] at this
+      rw [← this]; congr 1; omega)
+    refine ⟨k', ?_, ?_⟩
+    · simp only [transF, transWith, hk1]; exact hk'
+    · simp only [List.length_cons]; rw [show pos + (bs.length + 1) = pos + 1 + bs.length by omega]
+      exact hph'
+
+theorem transWith_bwd_ok {cs : List Nat} (hcs : AllScalar cs) :
+    ∀ (rb : List Nat) (pos k : Nat), Ph cs pos k → rb.length ≤ pos →
+      (∀ t, t < rb.length → (text cs)[pos - 1 - t]? = rb[t]?) →
+      ∃ k', transWith bwdStep k rb = some k' ∧ Ph cs (pos - rb.length) k' := by
+  intro rb
+  induction rb with
+  | nil => intro pos k h _ _; exact ⟨k, rfl, h⟩
+  | cons b rb ih =>
+    intro pos k h hlen hb
+    simp only [List.length_cons] at hlen
+    have h0 := hb 0 (by simp)
+    simp only [Nat.sub_zero, List.getElem?_cons_zero] at h0
+    obtain ⟨k1, hk1, hph1⟩ := bwdStep_ok hcs h (by omega) h0
+    obtain ⟨k', hk', hph'⟩ := ih (pos - 1) k1 hph1 (by omega) (by
+      intro t ht
+      have := hb (t + 1) (by simp; omega)
+      simp only [List.getElem?_cons_succ] at this
+      rw [← this]; congr 1; omega)
+    refine ⟨k', ?_, ?_⟩
+    · simp only [transWith, hk1]; exact hk'
+    · simp only [List.length_cons]; rw [show pos - (rb.length + 1) = pos - 1 - rb.length by omega]
+      exact hph'
+
+theorem slice_getElem {bytes : Array Nat} {s e : Nat} {l : List Nat} (h : Utf8.slice bytes s e = l) :
+    ∀ t, t < l.length → bytes[s + t]? = l[t]? := by
+  intro t ht
+  subst h
+  unfold Utf8.slice at ht ⊢
+  simp only [Array.length_toList, Array.size_extract] at ht
+  rw [Array.getElem?_toList, Array.getElem?_extract]
+  simp [ht]
+
+/-- A successful `match_bytes` from a position of phase `k` ends at the phase computed statically. -/
+theorem matchBytes_phase {cs : List Nat} (hcs : AllScalar cs) {fwd : Bool} {pos p k : Nat}
+    {bs : List Nat} (hph : Ph cs pos k) (hm : Utf8.matchBytes (text cs) fwd pos bs = some p) :
+    ∃ k', (if fwd then transF k bs else transB k bs) = some k' ∧ Ph cs p k' := by
+  unfold Utf8.matchBytes at hm
+  cases fwd with
+  | true =>
+    simp only [if_true, Utf8.tryMoveRight] at hm ⊢
+    split at hm
+    · cases hm
+    · rename_i e he
+      split at he
+      · cases he
+      · cases he
+        split at hm
+        · rename_i heq
+          cases hm
+          exact transF_ok hcs bs pos k hph (slice_getElem (eq_of_beq heq))
+        · cases hm
+  | false =>
+    simp only [Bool.false_eq_true, if_false, Utf8.tryMoveLeft] at hm ⊢
+    split at hm
+    · cases hm
+    · rename_i e he
+      split at he
+      · cases he
+      · rename_i hlen
+        cases he
+        split at hm
+        · rename_i heq
+          cases hm
+          have hsl := slice_getElem (eq_of_beq heq)
+          have := transWith_bwd_ok hcs bs.reverse pos k hph (by simp; omega) (by
+            intro t ht
+            simp only [List.length_reverse] at ht
+            rw [List.getElem?_reverse ht, ← hsl (bs.length - 1 - t) (by omega)]
+            congr 1; omega)
+          simpa [transB] using this
+        · cases hm
+
+theorem ph_zero_iff {inp : Input} {cs : List Nat} (h : Utf8Text inp cs) {p : Nat} :
+    Ph cs p 0 ↔ VUtf8 inp p := by
+  rw [vutf8_iff h]
+  constructor
+  · rintro (⟨_, i, hi, rfl⟩ | ⟨hk, _⟩)
+    · exact ⟨i, hi, rfl⟩
+    · omega
+  · rintro ⟨i, hi, rfl⟩; exact Or.inl ⟨rfl, i, hi, rfl⟩
+
+end Phase
+
+/-! ### The phase certificate -/
+
+/-- Per instruction: the direction in which it is executed (`false` inside a look-behind body) and
+the phase of the position at which it is entered. -/
+structure Cert where
+  dir : Array Bool
+  ph : Array Nat
+deriving Repr, DecidableEq
+
+def Cert.at (c : Cert) (ip : Nat) : Option (Bool × Nat) :=
+  match c.dir[ip]?, c.ph[ip]? with
+  | some d, some k => some (d, k)
+  | _, _ => none
+
+/-- `byteSet` / `asciiBracket`. -/
+def isByteInsn : Insn → Bool
+  | .byteSet _ | .asciiBracket _ => true
+  | _ => false
+
+/-- All successors of a non-`byteSeq` instruction that are entered in the same direction on a
+boundary. -/
+def plainSuccs (prog : Prog) (ip : Nat) (insn : Insn) : List Nat :=
+  ctrlSuccs prog ip insn ++ (if isElem insn || isByteInsn insn then [ip + 1] else []) ++
+    (match insn with | .loop1 _ _ _ => [ip + 1] | _ => [])
+
+/-- The first instruction of a look-around body runs in the direction of the look-around. -/
+def lookOK (c : Cert) (ip : Nat) : Insn → Bool
+  | .lookahead _ _ _ _ => c.at (ip + 1) == some (true, 0)
+  | .lookbehind _ _ _ _ => c.at (ip + 1) == some (false, 0)
+  | _ => true
+
+/-- Local consistency of the certificate at one instruction. -/
+def checkInsn (prog : Prog) (c : Cert) (ip : Nat) (insn : Insn) : Bool :=
+  match c.at ip with
+  | none => false
+  | some (d, k) =>
+    match insn with
+    | .byteSeq bs =>
+      (match (if d then transF k bs else transB k bs) with
+       | none => true
+       | some k' => c.at (ip + 1) == some (d, k'))
+    | _ => k == 0 && (plainSuccs prog ip insn).all (fun t => c.at t == some (d, 0)) && lookOK c ip insn
+
+/-- **The Stage 3 clause of `wfProg'`**: instruction 0 is entered forwards on a boundary, and the
+certificate is locally consistent everywhere. In particular
+(a) along every maximal run of consecutive `byteSeq` chunks, executed in the direction of the
+enclosing look-around, the byte classes (ASCII / lead / continuation) are those of well-formed UTF-8;
+(b) every other instruction, every jump / alternation / loop / continuation target and every
+look-around body start is entered on a boundary (phase `0`), so none of them lies strictly inside a
+run that splits a character. -/
+def checkCert (prog : Prog) (c : Cert) : Bool :=
+  c.at 0 == some (true, 0) &&
+  (List.range prog.insns.size).all (fun ip =>
+    match prog.insns[ip]? with
+    | some insn => checkInsn prog c ip insn
+    | none => false)
+
+/-- The canonical certificate (untrusted: `checkCert` validates it). One left-to-right pass; `stack`
+holds the continuations and directions of the enclosing look-arounds. -/
+def mkCertLoop (prog : Prog) : List Nat → Bool → Nat → List (Nat × Bool) → Cert → Cert
+  | [], _, _, _, c => c
+  | ip :: rest, d, k, stack, c =>
+    -- leave the look-around bodies that end here
+    let (d, k, stack) := match stack with
+      | (cont, od) :: st => if cont == ip then (od, 0, st) else (d, k, stack)
+      | [] => (d, k, stack)
+    let c : Cert := { dir := c.dir.push d, ph := c.ph.push k }
+    match prog.insns[ip]? with
+    | some (.lookahead _ _ _ cont) => mkCertLoop prog rest true 0 ((cont, d) :: stack) c
+    | some (.lookbehind _ _ _ cont) => mkCertLoop prog rest false 0 ((cont, d) :: stack) c
+    | some (.byteSeq bs) =>
+      mkCertLoop prog rest d ((if d then transF k bs else transB k bs).getD 0) stack c
+    | _ => mkCertLoop prog rest d 0 stack c
+
+def mkCert (prog : Prog) : Cert :=
+  mkCertLoop prog (List.range prog.insns.size) true 0 [] { dir := #[], ph := #[] }
+
+/-- `wfProg' = wfProg ∧ checkCert (mkCert _)` — the decidable hypothesis of Stage 3. -/
+def wfProgUtf8 (prog : Prog) : Bool := wfProg prog && checkCert prog (mkCert prog)
+
+theorem checkCert_insn {prog : Prog} {c : Cert} (h : checkCert prog c = true) {ip : Nat} {insn : Insn}
+    (hi : prog.insns[ip]? = some insn) : checkInsn prog c ip insn = true := by
+  simp only [checkCert, Bool.and_eq_true, List.all_eq_true, List.mem_range] at h
+  have := h.2 ip (lt_of_getElem?_eq_some hi)
+  rw [hi] at this
+  exact this
+
+theorem checkInsn_plain {prog : Prog} {c : Cert} {ip : Nat} {insn : Insn}
+    (h : checkInsn prog c ip insn = true) (hn : ∀ bs, insn ≠ .byteSeq bs) :
+    ∃ d, c.at ip = some (d, 0) ∧ (∀ t ∈ plainSuccs prog ip insn, c.at t = some (d, 0)) ∧
+      lookOK c ip insn = true := by
+  unfold checkInsn at h
+  cases hc : c.at ip with
+  | none => rw [hc] at h; cases h
+  | some dk =>
+    obtain ⟨d, k⟩ := dk
+    rw [hc] at h
+    cases insn <;> first
+      | exact absurd rfl (hn _)
+      | (simp only [Bool.and_eq_true, beq_iff_eq, List.all_eq_true] at h
+         obtain ⟨⟨rfl, h2⟩, h3⟩ := h
+         exact ⟨d, rfl, h2, h3⟩)
+
+theorem checkInsn_seq {prog : Prog} {c : Cert} {ip : Nat} {bs : List Nat}
+    (h : checkInsn prog c ip (.byteSeq bs) = true) :
+    ∃ d k, c.at ip = some (d, k) ∧
+      ∀ k', (if d then transF k bs else transB k bs) = some k' → c.at (ip + 1) = some (d, k') := by
+  unfold checkInsn at h
+  cases hc : c.at ip with
+  | none => rw [hc] at h; cases h
+  | some dk =>
+    obtain ⟨d, k⟩ := dk
+    rw [hc] at h
+    refine ⟨d, k, rfl, ?_⟩
+    intro k' hk'
+    simp only [hk', beq_iff_eq] at h
+    exact h
+
+/-- Admissibility for Stage 3: the certificate gives the direction, and the position has the
+certified phase. -/
+def CertA (prog : Prog) (c : Cert) (cs : List Nat) (fwd : Bool) (ip pos : Nat) : Prop :=
+  ip < prog.insns.size ∧ ∃ k, c.at ip = some (fwd, k) ∧ Ph cs pos k
+
+theorem specUtf8Cert {prog : Prog} {inp : Input} {cs : List Nat} {c : Cert} (hw : wfProg prog = true)
+    (hc : checkCert prog c = true) (h : Utf8Text inp cs) :
+    Spec prog inp (CertA prog c cs) (VUtf8 inp) := by
+  -- a non-`byteSeq` instruction is entered on a boundary, and so are its plain successors
+  have plain : ∀ {fwd ip pos insn}, CertA prog c cs fwd ip pos → prog.insns[ip]? = some insn →
+      (∀ bs, insn ≠ .byteSeq bs) →
+      VUtf8 inp pos ∧ c.at ip = some (fwd, 0) ∧
+        (∀ t ∈ plainSuccs prog ip insn, c.at t = some (fwd, 0)) ∧ lookOK c ip insn = true := by
+    intro fwd ip pos insn ha hi hn
+    obtain ⟨_, k, hk, hph⟩ := ha
+    obtain ⟨d, h1, h2, h3⟩ := checkInsn_plain (checkCert_insn hc hi) hn
+    rw [hk] at h1
+    cases h1
+    exact ⟨(ph_zero_iff h).mp hph, hk, h2, h3⟩
+  have mk : ∀ {fwd t p}, t < prog.insns.size → c.at t = some (fwd, 0) → VUtf8 inp p →
+      CertA prog c cs fwd t p :=
+    fun ht hc' hv => ⟨ht, 0, hc', (ph_zero_iff h).mpr hv⟩
+  refine
+    { ip_lt := fun ha => ha.1
+      v_le := fun hv => hv.1
+      adm_v := fun ha hi hn => (plain ha hi hn).1
+      ctrl := ?_, elem := ?_, byte := ?_, seq := ?_
+      peek := fun hv => peek_utf8 h hv
+      backref := ?_, backrefI := ?_, look := ?_, loop1 := ?_
+      stepL := fun h1 h2 hlt => stepL_utf8 h h1 h2 hlt
+      stepR := fun h1 h2 hlt => stepR_utf8 h h1 h2 hlt }
+  · -- ctrl
+    intro fwd ip pos insn ha hi t ht
+    by_cases hn : ∀ bs, insn ≠ .byteSeq bs
+    · obtain ⟨hv, _, hs, _⟩ := plain ha hi hn
+      exact mk (ctrlSuccs_lt hw hi t ht) (hs t (by simp [plainSuccs, ht])) hv
+    · have : ∃ bs, insn = .byteSeq bs := by
+        by_cases hh : ∃ bs, insn = .byteSeq bs
+        · exact hh
+        · exact absurd (fun bs hb => hh ⟨bs, hb⟩) hn
+      obtain ⟨bs, rfl⟩ := this
+      simp [ctrlSuccs] at ht
+  · -- elem
+    intro fwd ip pos insn ha hi he
+    have hn : ∀ bs, insn ≠ .byteSeq bs := by intro bs hh; subst hh; simp [isElem] at he
+    obtain ⟨hv, _, hs, _⟩ := plain ha hi hn
+    obtain ⟨r, hr, hp⟩ := next_utf8 h fwd hv
+    have hsucc : ip + 1 < prog.insns.size := by
+      apply wf_succ hw hi <;> (intro hh; subst hh; simp [isElem] at he)
+    exact ⟨r, hr, fun c' p hcp => ⟨mk hsucc (hs _ (by simp [plainSuccs, he])) (hp c' p hcp).1,
+      (hp c' p hcp).2⟩⟩
+  · -- byte
+    intro fwd ip pos bs ha hi
+    have hbi : ∃ insn, prog.insns[ip]? = some insn ∧ isByteInsn insn = true ∧
+        (∀ b ∈ bs, b < 128) := by
+      rcases hi with hi | hi
+      · have := wf_insn hw hi
+        simp only [wfInsn, Bool.and_eq_true] at this
+        exact ⟨_, hi, rfl, fun b hb => mem_lt_of_all this.2 hb⟩
+      · have := wf_insn hw hi
+        simp only [wfInsn] at this
+        exact ⟨_, hi, rfl, fun b hb => mem_lt_of_all this hb⟩
+    obtain ⟨insn, hi', hbyte, hlt⟩ := hbi
+    have hn : ∀ bs', insn ≠ .byteSeq bs' := by intro bs' hh; subst hh; simp [isByteInsn] at hbyte
+    obtain ⟨hv, _, hs, _⟩ := plain ha hi' hn
+    obtain ⟨r, hr, hp⟩ := nextByte_utf8 h fwd hv
+    have hsucc : ip + 1 < prog.insns.size := by
+      apply wf_succ hw hi' <;> (intro hh; subst hh; simp [isByteInsn] at hbyte)
+    exact ⟨r, hr, fun b p hbp hmem =>
+      ⟨mk hsucc (hs _ (by simp [plainSuccs, hbyte])) (hp b p hbp (hlt b hmem)).1,
+        (hp b p hbp (hlt b hmem)).2⟩⟩
+  · -- seq
+    intro fwd ip pos bs p ha hi hm
+    obtain ⟨_, k, hk, hph⟩ := ha
+    obtain ⟨d, k0, h1, h2⟩ := checkInsn_seq (checkCert_insn hc hi)
+    rw [hk] at h1
+    cases h1
+    have hwi := wf_insn hw hi
+    simp only [wfInsn, Bool.and_eq_true, decide_eq_true_eq] at hwi
+    have hm' := hm
+    unfold Input.matchBytes at hm'
+    rw [h.bytes] at hm'
+    obtain ⟨k', hk', hph'⟩ := matchBytes_phase h.scalar hph hm'
+    have hle : pos ≤ inp.bytes.size := by
+      have := hph.le_size; rw [h.bytes]; omega
+    exact ⟨⟨wf_succ hw hi (by simp) (by simp), k', h2 k' hk', hph'⟩,
+      (matchBytes_moved (bytes := inp.bytes) hle hm).2 (by omega)⟩
+  · -- backref
+    intro fwd ip pos g ic rs re p ha hi h1 h2 hm
+    obtain ⟨hv, _, hs, _⟩ := plain ha hi (by intro bs; simp)
+    have := backref_utf8 h fwd h1 h2 hv hm
+    exact ⟨mk (wf_succ hw hi (by simp) (by simp)) (hs _ (by simp [plainSuccs, ctrlSuccs])) this.1,
+      this.2⟩
+  · -- backrefI
+    intro fwd ip pos g ic rs re ha hi h1 h2 hle
+    obtain ⟨hv, _, hs, _⟩ := plain ha hi (by intro bs; simp)
+    obtain ⟨r, hr, hp⟩ := backrefIcase_utf8 h fwd h1 h2 hle hv
+    exact ⟨r, hr, fun p hp' =>
+      ⟨mk (wf_succ hw hi (by simp) (by simp)) (hs _ (by simp [plainSuccs, ctrlSuccs])) (hp p hp').1,
+        (hp p hp').2⟩⟩
+  · -- look
+    intro fwd ip pos neg sg eg k ha
+    constructor
+    · intro hi
+      obtain ⟨hv, _, _, hl⟩ := plain ha hi (by intro bs; simp)
+      simp only [lookOK, beq_iff_eq] at hl
+      exact mk (wf_succ hw hi (by simp) (by simp)) hl hv
+    · intro hi
+      obtain ⟨hv, _, _, hl⟩ := plain ha hi (by intro bs; simp)
+      simp only [lookOK, beq_iff_eq] at hl
+      exact mk (wf_succ hw hi (by simp) (by simp)) hl hv
+  · -- loop1
+    intro fwd ip pos mn mx g ha hi p
+    obtain ⟨hv, h0, hs, _⟩ := plain ha hi (by intro bs; simp)
+    have hwi := wf_insn hw hi
+    simp only [wfInsn, Bool.and_eq_true, decide_eq_true_eq] at hwi
+    have hlt := hwi.1.2
+    have h2 : c.at (ip + 2) = some (fwd, 0) := hs _ (by simp [plainSuccs, ctrlSuccs])
+    have h1 : c.at (ip + 1) = some (fwd, 0) := hs _ (by simp [plainSuccs, ctrlSuccs])
+    refine ⟨⟨?_, fun hv' => mk hlt h2 hv'⟩, fun hv' => ⟨mk (by omega) h1 hv', mk ha.1 h0 hv'⟩⟩
+    rintro ⟨_, k, hk, hph⟩
+    rw [h2] at hk
+    cases hk
+    exact (ph_zero_iff h).mp hph
+
 end Regress.VM.Safety
